@@ -290,6 +290,9 @@ def load_image_band(filename,
     row_max = header['NAXIS2'] * (band[0]+1) // band[1]
 
     if compressed:
+        # adjust the header to match the data shape
+        header['NAXIS2'] = row_max-row_min
+        header['CRPIX2'] -= row_min
         return hdulist[0].data[row_min:row_max, :], header
 
     # Figure out how many axes are in the datafile
